@@ -108,7 +108,9 @@ func (clnt *Clnt) Rpcnb(r *Req) error {
 	clnt.reqlast = r
 	clnt.Unlock()
 
+	verifPoint("rpcnb.enqueued", r)
 	clnt.reqout <- r
+	verifPoint("rpcnb.sent", r)
 	return nil
 }
 
@@ -166,6 +168,7 @@ func (clnt *Clnt) recv() {
 			}
 
 			fc, fcsize, err := Unpack(buf, clnt.Dotu)
+			verifPoint("clnt.recv.frame", clnt)
 			clnt.Lock()
 			if err != nil {
 				clnt.err = err
@@ -233,7 +236,9 @@ func (clnt *Clnt) recv() {
 	}
 
 closed:
+	verifPoint("clnt.recv.closing", clnt)
 	clnt.done <- true
+	verifPoint("clnt.recv.fanout", clnt)
 
 	/* send error to all pending requests */
 	clnt.Lock()
@@ -277,6 +282,7 @@ func (clnt *Clnt) send() {
 			return
 
 		case req := <-clnt.reqout:
+			verifPoint("clnt.send.dequeued", req)
 			if clnt.Debuglevel > 0 {
 				clnt.logFcall(req.Tc)
 				if clnt.Debuglevel&DbgPrintPackets != 0 {
@@ -305,6 +311,7 @@ func (clnt *Clnt) send() {
 
 				buf = buf[n:]
 			}
+			verifPoint("clnt.send.written", req)
 		}
 	}
 }
